@@ -16,6 +16,7 @@ use sciparse::address::socket_addr::{ScionSocketAddr, ScionSocketAddrSvc, ScionS
 use sciparse::identifier::asn::Asn;
 use sciparse::identifier::isd::Isd;
 use sciparse::identifier::isd_asn::IsdAsn;
+use sciparse::path::policy::types::{HopPredicate, InterfacesPredicate};
 use vh_core::Rng;
 
 trait ToVal {
@@ -122,6 +123,24 @@ impl ToVal for ScionSocketIpAddr {
             ScionSocketIpAddr::V4(a) => a.to_val(),
             ScionSocketIpAddr::V6(a) => a.to_val(),
         }
+    }
+}
+
+fn ifs_val(i: &InterfacesPredicate) -> HostV {
+    match i {
+        InterfacesPredicate::Any => HostV::IfAny,
+        InterfacesPredicate::Either(a) => HostV::If1(a.into_inner()),
+        InterfacesPredicate::Both { ingress, egress } => HostV::If2(ingress.into_inner(), egress.into_inner()),
+    }
+}
+impl ToVal for InterfacesPredicate {
+    fn to_val(&self) -> Val {
+        Val { host: Some(ifs_val(self)), ..Val::default() }
+    }
+}
+impl ToVal for HopPredicate {
+    fn to_val(&self) -> Val {
+        Val { isd: Some(self.isd.0), asn: self.asn.map(|a| a.0), host: Some(ifs_val(&self.interfaces)), ..Val::default() }
     }
 }
 
@@ -263,7 +282,7 @@ fn hosts(rng: &mut Rng, n: usize, kinds: &str) -> Vec<(&'static str, ScionHostAd
 
 impl Target for Sciparse {
     fn types(&self) -> Vec<&'static str> {
-        vec!["Isd", "Asn", "IsdAsn", "Svc", "Host", "AddrV4", "AddrV6", "AddrSvc", "Addr", "IpAddr", "SockV4", "SockV6", "SockSvc", "Sock", "SockIp"]
+        vec!["Isd", "Asn", "IsdAsn", "Svc", "Host", "AddrV4", "AddrV6", "AddrSvc", "Addr", "IpAddr", "SockV4", "SockV6", "SockSvc", "Sock", "SockIp", "HopPred", "IfPred"]
     }
     fn parse(&self, ty: &str, s: &str) -> Vec<(&'static str, Out)> {
         match ty {
@@ -291,6 +310,8 @@ impl Target for Sciparse {
             "SockSvc" => both::<ScionSocketAddrSvc>(s),
             "Sock" => both::<ScionSocketAddr>(s),
             "SockIp" => both::<ScionSocketIpAddr>(s),
+            "HopPred" => vec![("from_str", via_fromstr::<HopPredicate>(s))],
+            "IfPred" => vec![("from_str", via_fromstr::<InterfacesPredicate>(s))],
             _ => vec![],
         }
     }
@@ -316,6 +337,36 @@ impl Target for Sciparse {
                 }
             }
             "Host" => hosts(rng, n, kinds).into_iter().for_each(|(c, h)| show(c, h, &mut out)),
+            "IfPred" => {
+                // InterfacesPredicate::Any has the empty displayed form (it is simply omitted in a predicate)
+                for (a, b) in [(0u16, 0u16), (1, 2), (65535, 0), (0, 65535), (rng.below(65536) as u16, rng.below(65536) as u16)] {
+                    for v in [InterfacesPredicate::either(a), InterfacesPredicate::both(a, b)] {
+                        let d = vh_core::catch(|| v.to_string()).unwrap_or_else(|m| format!("<display panicked: {m}>"));
+                        out.push(("ifs".to_string(), d, v.to_val()));
+                    }
+                }
+            }
+            "HopPred" => {
+                let a = asns(rng, n);
+                let i = isds(rng, n);
+                let ifs = [InterfacesPredicate::any(), InterfacesPredicate::either(0u16), InterfacesPredicate::either(7u16), InterfacesPredicate::both(0u16, 0u16),
+                    InterfacesPredicate::both(1u16, 65535u16), InterfacesPredicate::both(rng.below(65536) as u16, 0u16)];
+                for k in 0..(a.len() * 2) {
+                    let asn = if k % 4 == 3 { None } else { Some(Asn(a[k % a.len()])) };
+                    let p = HopPredicate { isd: Isd(i[k % i.len()]), asn, interfaces: ifs[k % ifs.len()] };
+                    let d = vh_core::catch(|| p.to_string()).unwrap_or_else(|m| format!("<display panicked: {m}>"));
+                    // reading adopted (C16): a predicate without AS and one with the AS wildcard are the same
+                    // predicate; interfaces can only be written after an AS, so the expected value names AS 0
+                    let mut v = p.to_val();
+                    let class = if asn.is_none() && !matches!(p.interfaces, InterfacesPredicate::Any) {
+                        v.asn = Some(0);
+                        "pred-interfaces-without-as"
+                    } else {
+                        "pred"
+                    };
+                    out.push((class.to_string(), d, v));
+                }
+            }
             _ => {
                 let ia = ias(rng, n);
                 let hs = hosts(rng, n, kinds);
